@@ -5,6 +5,7 @@
 From Coq Require Import List ZArith Bool.
 From V Require Import Gen.Params RunLoop.Model RunLoop.Proofs.
 From V Require ConnIDs.Routing ConnIDs.ProofsRouting.
+From V Require FrameSorter.Model RecvStream.Model RecvStream.Spec RunLoop.ProofsStreams.
 Import ListNotations.
 Open Scope Z_scope.
 
@@ -35,6 +36,52 @@ Theorem C17_single_cause_parked : forall a e ps, fresh_streams a -> Forall (call
                    (r = RErr e \/ own_result r \/ (c = CReceiveDatagram /\ a_rcvQueued a = true /\ r = ROk))) ps.
 Proof. exact single_cause_parked. Qed.
 Print Assumptions C17_single_cause_parked.
+
+(** ... over every PER-STREAM STATE: end reached or not, cancellation error recorded or not, cancellation effective or
+    not (a RESET_STREAM_AT whose reliable part is still incomplete is recorded but not effective: Read waits for the
+    rest), data queued or not; send side: reset by STOP_SENDING, closed, room or not. After closeForShutdown neither a
+    parked nor a later Read / Write parks; each returns the cause or the stream's own terminal result. *)
+Theorem C17_streams_every_state : forall e,
+  (forall r, r_read (r_closeForShutdown r e) <> RBlock /\
+             (r_read (r_closeForShutdown r e) = RErr e \/ own_result (r_read (r_closeForShutdown r e)))) /\
+  (forall s, s_shutdown s = None ->
+             s_write (s_closeForShutdown s e) <> RBlock /\
+             (s_write (s_closeForShutdown s e) = RErr e \/ own_result (s_write (s_closeForShutdown s e)))).
+Proof.
+  intros e. split; [intros r; exact (read_after_shutdown_every_state r e) | intros s; exact (write_after_shutdown_every_state s e)].
+Qed.
+Print Assumptions C17_streams_every_state.
+
+(** why closeForShutdown must record the error unconditionally (what seeded change C17-d removes): with the
+    condition "unless a cancellation error is recorded", the reader of a stream with a pending RESET_STREAM_AT stays parked *)
+Theorem C17_conditional_shutdown_leaves_parked : forall e,
+  let r := {| r_eof := false; r_cancelErr := true; r_cancel := false; r_shutdown := None; r_data := false |} in
+  r_read (r_closeForShutdown_unless_cancelled r e) = RBlock /\ r_read (r_closeForShutdown r e) = RErr e.
+Proof. exact conditional_shutdown_leaves_parked. Qed.
+Print Assumptions C17_conditional_shutdown_leaves_parked.
+
+(** the same on the C03 unit's full ReceiveStream model (frame sorter, flow control, reliable size; tied to
+    receive_stream.go by C03's correspondence unit), citing C03_read_live / C03_peek_live: closeForShutdown latches every
+    reachable stream state, so after it neither Read nor Peek parks — for every valid history of STREAM frames,
+    RESET_STREAM(_AT) frames, reads, peeks and CancelRead calls. *)
+Module C17_cites_C03.
+Import V.FrameSorter.Model V.RecvStream.Model V.RecvStream.Spec.
+Theorem C17_stream_unblocked_every_reachable_state : forall S w ops r n,
+  0 <= w < MaxBC -> Forall rvalid ops -> rsrun S (rrun_init w) ops = Some r -> 0 < n ->
+  (forall s' d e bug, Read (CloseForShutdown (rr_st r)) n = (s', d, e, bug) -> e <> EWouldBlock) /\
+  (forall s' d e bug, PeekS (CloseForShutdown (rr_st r)) n = (s', d, e, bug) -> e <> EWouldBlock).
+Proof. exact V.RunLoop.ProofsStreams.stream_unblocked_every_state. Qed.
+Print Assumptions C17_stream_unblocked_every_reachable_state.
+
+(** non-vacuity: the state the seeded change breaks — 3 bytes read, RESET_STREAM_AT with reliable size 10 — is reachable,
+    a Read parks in it, and does not after closeForShutdown *)
+Example C17_reset_at_pending_reachable :
+  exists r, rsrun (fun i => i) (rrun_init 65536) [ROFrame 0 3 false None; RORead 3; ROReset 20 10 9] = Some r /\
+    (let '(_, _, e, _) := Read (rr_st r) 5 in e) = EWouldBlock /\
+    (let '(_, _, e, _) := Read (CloseForShutdown (rr_st r)) 5 in e) <> EWouldBlock.
+Proof. eexists. split; [vm_compute; reflexivity|]. split; vm_compute; [reflexivity|discriminate]. Qed.
+Print Assumptions C17_reset_at_pending_reachable.
+End C17_cites_C03.
 
 (** why the maps and the datagram queue must close a channel: a single token wakes one of two waiters *)
 Theorem C17_one_token_leaves_parked : forall wk c, wk c = WakeOne -> woken_from wk [] [c; c] = [c].
